@@ -38,7 +38,8 @@ use std::collections::{BTreeMap, HashSet};
 use std::sync::Mutex;
 
 const ARCHS: [&str; 7] = ["x86", "amd64", "mips", "mipsel", "ppc", "aarch64", "aarch64eb"];
-const ADDRS: [u64; 4] = [0, 0x1000, 0xffff_fff8, 0x8000_0000_0000_0000];
+// the last one: the block ends at the very top of the 64-bit address space
+const ADDRS: [u64; 5] = [0, 0x1000, 0xffff_fff8, 0x8000_0000_0000_0000, 0xffff_ffff_ffff_fffc];
 const TIMEOUT_MS: u64 = 2000;
 const MAX_EVENT_BYTES: usize = 400_000;
 
@@ -627,7 +628,7 @@ fn corpus_cases(dir: &str, arch: &'static str, rng: &mut Rng) -> Vec<Case> {
             // followed by a nop (the MIPS delay slot; block continuation elsewhere)
             let mut b = ins.clone();
             b.extend(nop_bytes(arch));
-            out.push(Case { arch, intr, addr: ADDRS[k % 4], bytes: b, kind: "corpus+nop" });
+            out.push(Case { arch, intr, addr: ADDRS[k % ADDRS.len()], bytes: b, kind: "corpus+nop" });
             // followed by another template
             let mut b = ins.clone();
             b.extend(rng.pick(&corpus).clone());
@@ -635,9 +636,9 @@ fn corpus_cases(dir: &str, arch: &'static str, rng: &mut Rng) -> Vec<Case> {
                 // e.g. a branch in the delay slot of a branch, followed by its own delay slot
                 let mut b3 = b.clone();
                 b3.extend(nop_bytes(arch));
-                out.push(Case { arch, intr, addr: ADDRS[(k + 2) % 4], bytes: b3, kind: "corpus+corpus+nop" });
+                out.push(Case { arch, intr, addr: ADDRS[(k + 2) % ADDRS.len()], bytes: b3, kind: "corpus+corpus+nop" });
             }
-            out.push(Case { arch, intr, addr: ADDRS[(k + 1) % 4], bytes: b, kind: "corpus+corpus" });
+            out.push(Case { arch, intr, addr: ADDRS[(k + 1) % ADDRS.len()], bytes: b, kind: "corpus+corpus" });
         }
     }
     out
